@@ -215,7 +215,7 @@ impl Default for GenCfg {
 }
 
 const POOL: &[&str] = &[
-    "a", "b", "c", "x", "y", "item", "node", "f", "g", "h", "it-em", "n$1", "_u", "val", "person", "name_", "k", "w", "page", "err",
+    "a", "b", "c", "x", "y", "item", "node", "f", "g", "h", "it-em", "n$1", "_u", "val", "person", "name_", "k", "w", "page", "err", "Res", "uri2", "a1", "X", "get_",
 ];
 const QUALS: &[&str] = &["m", "lib", "q", "mod_", "z"];
 const MEDIA: &[&str] = &["application/json", "application/problem+json", "application/vnd.x+json", "text/plain"];
@@ -456,9 +456,14 @@ impl Cx<'_> {
         }
         let w = self.text_word();
         let body = match k {
-            Kind::S(SK::Prim) => match self.rng.below(3) {
+            Kind::S(SK::Prim) => match self.rng.below(8) {
                 0 => format!("title: \"{w}\""),
                 1 => "minimum: 0, maximum: 99".to_string(),
+                2 => "multipleOf: 5, example: 42".to_string(),
+                3 => "pattern: \"^[a-z]+$\", example: sarah".to_string(),
+                4 => "enum: [red, green, blue]".to_string(),
+                5 => "format: email, minLength: 3, maxLength: 64".to_string(),
+                6 => "required: true".to_string(),
                 _ => format!("description: \"{w}\""),
             },
             Kind::S(_) => match self.rng.below(3) {
@@ -471,8 +476,12 @@ impl Cx<'_> {
                 _ => format!("description: \"{w}\""),
             },
             Kind::Prop(_) => format!("description: \"{w}\""),
-            Kind::Transfer => match self.rng.below(3) {
+            Kind::Transfer => match self.rng.below(4) {
                 0 => tags_ann(self.rng),
+                3 => {
+                    let id = self.fresh();
+                    format!("operationId: \"op-{id}\"")
+                }
                 1 => format!("summary: \"{w}\""),
                 _ => format!("description: \"{w}\", {}", tags_ann(self.rng)),
             },
@@ -522,10 +531,11 @@ impl Cx<'_> {
                 (vec![self.string_lit(m)], true)
             }
             Kind::Status => {
-                let s = match self.rng.below(4) {
+                let s = match self.rng.below(5) {
                     0 => "200".to_string(),
                     1 => format!("{}", 100 + self.rng.below(500)),
                     2 => format!("{}XX", 1 + self.rng.below(5)),
+                    3 => self.rng.pick(&["100", "101", "204", "304", "599", "500"]).to_string(),
                     _ => "404".to_string(),
                 };
                 (vec![t(&s)], true)
@@ -1029,7 +1039,8 @@ pub fn generate(rng: &mut Rng, cfg: &GenCfg) -> ProgramAst {
         mods[m].imports = imports.clone();
 
         // --- declaration headers first (names, kinds, params) so the resolver knows all names
-        let ndecl = rng.range(cfg.min_decls, cfg.max_decls);
+        // now and then an imported module is empty
+        let ndecl = if m > 0 && rng.chance(1, 25) { 0 } else { rng.range(cfg.min_decls, cfg.max_decls) };
         let mut headers: Vec<Decl> = Vec::new();
         let mut own_names: BTreeSet<String> = BTreeSet::new();
         for _ in 0..ndecl {
@@ -1610,6 +1621,8 @@ pub struct Layout {
     /// per module
     pub crlf: Vec<bool>,
     pub comments: bool,
+    /// 0: seeded mixture, 1: the whole module on one (very long) line, 2: one token per line
+    pub shape: u8,
 }
 
 const TRIVIA_ASCII: &[&str] = &[" ", " ", " ", "\n", "\n  ", "  ", " /* note */ ", "\n// line\n", "\t"];
@@ -1634,7 +1647,11 @@ pub fn render(ast: &ProgramAst, layout: &Layout) -> Vec<RMod> {
                         1 => rng.chance(1, 12),
                         _ => rng.chance(1, 3),
                     };
-                    if mb && layout.comments {
+                    if layout.shape == 1 {
+                        text.push_str(if mb { " /* é😉 */ " } else { " " });
+                    } else if layout.shape == 2 {
+                        text.push('\n');
+                    } else if mb && layout.comments {
                         text.push_str(*rng.pick(TRIVIA_MB));
                     } else if layout.comments {
                         text.push_str(*rng.pick(TRIVIA_ASCII));
@@ -1662,7 +1679,7 @@ pub fn render(ast: &ProgramAst, layout: &Layout) -> Vec<RMod> {
                 }
             }
             stmts.push((start.unwrap_or(text.len()), text.len()));
-            text.push('\n');
+            text.push(if layout.shape == 1 && !s.toks.iter().any(|t| t.eol) && si + 1 < m.stmts.len() && !m.stmts[si + 1].toks.first().map(|t| t.eol).unwrap_or(false) { ' ' } else { '\n' });
             if layout.comments && rng.chance(1, 5) {
                 text.push('\n');
             }
